@@ -278,10 +278,10 @@ func harnesses(r *fw.Run) []fw.HarnessSpec {
 	add("shard-prefixes", 0, func(c *enum.Ctx) {
 		l := c.ChooseFree(61)
 		var pfx uint64
-		if l <= 10 {
+		if l <= r.Pick(10, 16) { // every prefix up to this length
 			pfx = uint64(c.ChooseFree(1 << uint(l)))
 		} else {
-			k := c.ChooseFree(32)
+			k := c.ChooseFree(r.Pick(32, 256))
 			pfx = bits.Pattern(seed+k, l).Uint().Uint64()
 			switch k {
 			case 0:
